@@ -59,15 +59,32 @@ func concEvents(args []string, out *bufio.Writer) {
 		// the kind of cache: bounded (most), without any maintenance at all (no bound, no expiry: writers never touch the eviction
 		// lock, InvalidateAll is the only bulk path), expiry only
 		kind := "bounded"
+		var aclk *atomicClock
 		if !big {
 			switch i % 6 {
 			case 4:
 				kind = "plain"
 				o.MaximumSize = 0
 			case 5:
+				// expiry only, on a clock that another goroutine moves while the writers run: entries expire, are swept,
+				// rewritten and invalidated concurrently (every value must still be reported exactly once, by both handlers,
+				// with the same cause)
 				kind = "expiring"
 				o.MaximumSize = 0
-				o.ExpiryCalculator = otter.ExpiryWriting[int, int](time.Hour)
+				aclk = &atomicClock{}
+				aclk.now.Store(1 << 40)
+				o.Clock = aclk
+				if i%12 == 5 {
+					o.ExpiryCalculator = slowReadExpiry{ttl: time.Duration(2 << 30)}
+				} else {
+					o.ExpiryCalculator = otter.ExpiryWriting[int, int](time.Duration(2 << 30))
+				}
+			case 2:
+				// bounded and expiring, same moving clock
+				aclk = &atomicClock{}
+				aclk.now.Store(1 << 40)
+				o.Clock = aclk
+				o.ExpiryCalculator = otter.ExpiryAccessing[int, int](time.Duration(3 << 30))
 			}
 		}
 		// in half of the scripts InvalidateAll runs concurrently with the writers, again and again
@@ -82,6 +99,24 @@ func concEvents(args []string, out *bufio.Writer) {
 		}
 		written := make([][]int, writers)
 		var wg sync.WaitGroup
+		stopTicker := make(chan struct{})
+		tickerDone := make(chan struct{})
+		go func() {
+			defer close(tickerDone)
+			if aclk == nil {
+				return
+			}
+			tr := &rng{s: r.next()}
+			for {
+				select {
+				case <-stopTicker:
+					return
+				default:
+				}
+				aclk.now.Add(int64(1<<29) + int64(tr.intn(1<<31)))
+				time.Sleep(time.Duration(5+tr.intn(40)) * time.Microsecond)
+			}
+		}()
 		stopSweeper := make(chan struct{})
 		sweeperDone := make(chan struct{})
 		go func() {
@@ -156,6 +191,8 @@ func concEvents(args []string, out *bufio.Writer) {
 		wg.Wait()
 		close(stopSweeper)
 		<-sweeperDone
+		close(stopTicker)
+		<-tickerDone
 		settle := func() {
 			for t := 0; t < 2000; t++ {
 				pending.Wait()
